@@ -11,6 +11,7 @@ import NeoModel.Proofs.CodecBase58
 import NeoModel.Proofs.CodecScript
 import NeoModel.Proofs.CodecFixed
 import NeoModel.Proofs.CodecMsScript
+import NeoModel.Proofs.CodecSig
 namespace NeoModel.Codec
 variable {Sig Key : Type}
 
@@ -238,5 +239,39 @@ example : ∃ s, createMultiSig 2 [List.replicate 33 1, List.replicate 33 2, Lis
 -- … and the builder's guards
 example : createMultiSig 0 [List.replicate 33 1] = none ∧ createMultiSig 2 [List.replicate 33 1] = none := by
   constructor <;> simp [createMultiSig]
+
+/-! ## signatures (abstract algebra only; the real functions are sampled by the harness) -/
+
+/-- C18 (signatures, algebraic completeness): over any scalar ring acting on a group with the
+usual laws, an ECDSA signature made with an invertible nonce `k` (and invertible `s`) verifies
+under the matching public key, for every private scalar `d` and digest `z`. Not tied to the real
+code. "Fails for any other key, message or altered signature" is a computational claim and is
+not a theorem (sampled on real keys by the harness). -/
+theorem ecdsa_verify_sign {F G : Type} [DecidableEq F] (E : EcdsaAlg F G) (d k z : F)
+    (hk : E.mul k (E.inv k) = E.one)
+    (hs : E.mul (E.sign d k z).2 (E.inv (E.sign d k z).2) = E.one) :
+    E.verify (E.smul d E.base) z (E.sign d k z) = true := E.verify_sign_aux d k z hk hs
+
+-- non-vacuity: the integers modulo 7 acting on themselves (inverse = 5th power).
+def toyEcdsa : EcdsaAlg (Fin 7) (Fin 7) where
+  add := (· + ·)
+  mul := (· * ·)
+  inv := fun a => a * a * a * a * a
+  one := 1
+  gadd := (· + ·)
+  smul := (· * ·)
+  base := 3
+  xco := id
+  mul_assoc := by decide
+  mul_comm := by decide
+  mul_one := by decide
+  add_mul := by decide
+  smul_add := by decide
+  smul_smul := by decide
+
+example : toyEcdsa.verify (toyEcdsa.smul 4 toyEcdsa.base) 5 (toyEcdsa.sign 4 2 5) = true :=
+  ecdsa_verify_sign toyEcdsa 4 2 5 (by decide) (by decide)
+-- and verification is not vacuous: another digest is rejected in the toy instance
+example : toyEcdsa.verify (toyEcdsa.smul 4 toyEcdsa.base) 6 (toyEcdsa.sign 4 2 5) = false := by decide
 
 end NeoModel.Codec
